@@ -226,6 +226,19 @@ class Ctx:
             cmd += ["-overlay", self._overlay(overlay)]
         cmd.append(pkg)
         rc, o = sh(cmd, cwd=GO, env=env_go(), timeout=1200)
+        if rc != 0 and overlay:
+            # The white-box accessor no longer compiles against the working tree (e.g. an unexported identifier was
+            # renamed).  Fall back to a black-box build: tag `nooverlay`, no -overlay; harnesses that support it carry a
+            # stub under that tag.  What the white-box view would have shown is then simply not observed.
+            cmd2 = ["go", "build", "-modfile=" + gm, "-tags", tags + " nooverlay", "-o", out]
+            if race:
+                cmd2.append("-race")
+            cmd2.append(pkg)
+            rc2, o2 = sh(cmd2, cwd=GO, env=env_go(), timeout=1200)
+            if rc2 == 0:
+                self.extra["overlay_fallback"] = "overlay did not compile against the working tree (%s); built black-box" % (
+                    o.strip().splitlines()[-1][:200] if o.strip() else "?")
+                rc, o = rc2, o2
         if rc != 0:
             self.violations.append({"kind": "build", "what": "harness does not build against the working tree: " + o[-1500:],
                                     "concrete": False})
